@@ -473,6 +473,8 @@ class Interp:
         ctx.interp = self
         self.world = World(self)
         self.depth = 0
+        self.frame_stack = []  # active interpreted frames (innermost last)
+        self.inflight = []  # argument lists of calls in progress (live-memory meter)
         self.max_depth = 60
         self.root_qual = None  # the function currently under verification: never summarised
         self.loop_specs = {}  # (qual, ordinal) -> LoopSpec
@@ -806,6 +808,7 @@ class Interp:
         fr = Frame(fn.module, parent=fn.frame, func=fn, qual=fn.qual)
         self.bind_args(fn, fr, list(args), dict(kwargs))
         self.depth += 1
+        self.frame_stack.append(fr)
         try:
             if isinstance(node, ast.Lambda):
                 return self.eval(node.body, fr)
@@ -823,6 +826,7 @@ class Interp:
             return ret
         finally:
             self.depth -= 1
+            self.frame_stack.pop()
 
     def bind_args(self, fn: Closure, fr: Frame, args, kwargs):
         a = fn.node.args
@@ -1691,7 +1695,14 @@ class Interp:
             return self._super(fr)
         if fn is self.builtins.get("locals"):
             return dict(fr.locals)
-        return self.call(fn, args, kwargs)
+        if self.ctx.meter is None:
+            return self.call(fn, args, kwargs)
+        # live-memory meter: the evaluated arguments are referenced by the caller until the call returns
+        self.inflight.append((args, kwargs))
+        try:
+            return self.call(fn, args, kwargs)
+        finally:
+            self.inflight.pop()
 
     def _super(self, fr):
         f = fr
